@@ -376,3 +376,155 @@ Example C02_sparse_decision_nonvacuous :
    vred (value_at fsp_model dec_params 0 false (fun i => VFin (dec_table i)) (sigma_agent RS [] CST [1] [] [3 # 2]))]
   = [VFin (33 # 40); VFin (37 # 10)].
 Proof. cbv zeta. repeat split; vm_compute; reflexivity. Qed.
+
+(* ---- the same on a model of the data space ------------------------------------------------------------------------------------ *)
+From LCM Require Import Proofs.C02_DataRows.
+(* data_rows (Proofs/C02_DataRows.v) models what create_data_scs builds with filter-restricted choices: for every agent, in       *)
+(* agent order, the restricted-choice combinations that pass the filters at the agent's states (keep_of: the model's filters       *)
+(* evaluated there), the columns repeating the agent's states and listing the combination's grid values, the segment of a row      *)
+(* being its agent.  On it the row-structure hypotheses of the theorem above are theorems (data_rows_structure), and a rejected     *)
+(* combination is inadmissible (dropped_on_data_rows).  What remains is about the model and the agents only.                        *)
+Theorem C02_simulated_decision_on_the_data_space_is_a_feasible_maximiser :
+  forall (m : model) (p : params) (t : nat) (F : list nat -> Q) (rs rc dst dch cst cch : list (string * grid))
+         (isr : string -> bool) (remaining : list (list nat)),
+  Permutation (rc ++ dch ++ cch) (choices m) -> NoDup (map fst (choices m)) ->
+  NoDup (map fst (rs ++ rc ++ dst ++ cst ++ dch ++ cch) ++ [period_name]) ->
+  NoDup (map fst (states m)) -> grids_valid (states m) ->
+  (forall x, In x (map fst (dch ++ cch)) -> is_restricted m x = false) ->
+  forall (nag : nat) (stRs stDst stCst : list (list Q)),
+  length stRs = length rs -> length stDst = length dst -> length stCst = length cst ->
+  let keepA := keep_of m p t rs rc dst cst stRs stDst stCst in
+  let rows := data_rows rc nag keepA in
+  let colsA := data_colsA rc nag keepA stRs stDst in
+  let colsC := data_colsC rc nag keepA stCst in
+  let ids := data_ids rc nag keepA in
+  (colsA ++ colsC)%list <> [] ->
+  let uf := uf_code_sparse m p t F rs rc dst dch cst cch isr remaining in
+  (forall row dc cc, (row < length rows)%nat -> in_bounds (sizes dch) dc -> in_bounds (sizes cch) cc ->
+     evaluates_at_ix m p F isr remaining (env_of_vals6 t rs rc dst dch cst cch (agent_vals dch cch colsA colsC row dc cc))) ->
+  forall a, (a < nag)%nat ->
+  (exists ci, in_bounds (sizes rc) ci /\ keepA a ci = true) ->
+  let vnext := fun idx => VFin (F idx) in
+  let sigma := agent_sigma rs dst cst stRs stDst stCst a in
+  let V := value_agent rs rc dst dch cst cch uf colsA colsC ids nag a in
+  veq V (value_at m p t false vnext sigma) /\
+  (V <> VNegInf ->
+   let row := row_agent rs rc dst dch cst cch uf colsA colsC ids nag a in
+   let ci := ci_of_row rc nag keepA row in
+   let red := red_g ((rs ++ rc) ++ dst) dch cst cch uf colsA colsC row in
+   let cidx := unravel (sizes cch) (cont_argmax_g ((rs ++ rc) ++ dst) dch cst cch uf colsA colsC row) in
+   In row (rows_of_segment ids a) /\ in_bounds (sizes rc) ci /\ in_bounds (sizes dch) red /\ in_bounds (sizes cch) cidx /\
+   feasible m p (sigma ++ (env_of_idx rc ci ++ env_of_idx dch red ++ env_of_idx cch cidx) ++ [(period_name, Qofnat t)])%list = true /\
+   veq (objective m p false vnext (sigma ++ (env_of_idx rc ci ++ env_of_idx dch red ++ env_of_idx cch cidx) ++ [(period_name, Qofnat t)])%list) V).
+Proof. exact sparse_decision_on_the_data_space. Qed.
+Print Assumptions C02_simulated_decision_on_the_data_space_is_a_feasible_maximiser.
+
+Example C02_data_space_nonvacuous :
+  let RS := [("h", GDisc 2)] in let RC := [("d", GDisc 2)] in let CST := [("w", GLin 0 2 3)] in
+  let keepA := keep_of fsp_model dec_params 0 RS RC [] CST [[0; 1]] [] [[1 # 3; 3 # 2]] in
+  data_rows RC 2 keepA = [(0, [0]); (1, [0]); (1, [1])]%nat /\
+  data_ids RC 2 keepA = [0; 1; 1]%nat /\
+  data_colsA RC 2 keepA [[0; 1]] [] = [[0; 1; 1]; [0; 0; 1]] /\
+  data_colsC RC 2 keepA [[1 # 3; 3 # 2]] = [[1 # 3; 3 # 2; 3 # 2]].
+Proof. cbv zeta. repeat split; vm_compute; reflexivity. Qed.
+
+(* ---- EVERY ROW OF simulate WITH FILTER-RESTRICTED VARIABLES ------------------------------------------------------------------- *)
+From LCM Require Import Model.StateSpace Proofs.C01_SparseSolve Proofs.C02_SimulateAllSparse.
+(* sp_sim (Proofs/C02_SimulateAllSparse.v): the regenerated forward loop with, in every period, the data space of the agents'     *)
+(* current states (data_rows), the decision with segments as decision block, the arrays of the regenerated solve with filters        *)
+(* (code_solve_sparse) as value arrays and the state indexers of the NEXT period as lookup objects (the shifted list of the glue),    *)
+(* an arbitrary law of motion.  For every period t before the last and every agent a that has an admissible restricted-choice        *)
+(* combination: the recorded value is the specification's value_at of the agent's state and, unless -inf, the recorded restricted,    *)
+(* dense and continuous choices are admissible and attain it.  (The last period: the theorem below.)                                 *)
+Theorem C02_every_simulated_row_with_filters_is_a_feasible_maximiser :
+  forall (m : model) (p : params) (n : nat) (dch cch : list (string * grid)),
+  let rs := restricted_states m in let rc := restricted_choices m in
+  let dst := free_discrete_states m in let cst := free_continuous_states m in
+  Permutation (rc ++ dch ++ cch) (choices m) -> NoDup (map fst (choices m)) -> NoDup (map fst (rs ++ rc)) -> rs <> [] ->
+  (forall x, In x (map fst (dst ++ cst ++ dch ++ cch)) -> is_restricted m x = false) ->
+  NoDup (map fst (states m)) -> grids_valid (states m) ->
+  (forall sg, In sg (states m) -> is_restricted m (fst sg) = true -> is_cont (snd sg) = false) ->
+  NoDup (map fst (rc ++ dst ++ dch ++ cst ++ cch)) -> ~ In "__sparse__"%string (map fst (rc ++ dch ++ cch)) ->
+  NoDup (map fst (rs ++ rc ++ dst ++ cst ++ dch ++ cch) ++ [period_name]) -> (1 <= n)%nat ->
+  forall (nag : nat) (trans : S3 -> list (list nat * list nat * list nat) -> nat -> list key -> S3)
+         (initial : S3) (seed : nat) (prng : nat -> key) (n_stoch : nat) (t a : nat),
+  (t < n)%nat -> (a < nag)%nat ->
+  let '(stRs, stDst, stCst) := sp_states_at m p n dch cch nag trans initial seed prng n_stoch t in
+  let keepA := keep_of m p t rs rc dst cst stRs stDst stCst in
+  let colsA := data_colsA rc nag keepA stRs stDst in
+  let colsC := data_colsC rc nag keepA stCst in
+  length stRs = length rs -> length stDst = length dst -> length stCst = length cst -> (colsA ++ colsC)%list <> [] ->
+  (exists ci, in_bounds (sizes rc) ci /\ keepA a ci = true) ->
+  (S t < n)%nat ->
+  (forall row dc cc, (row < length (data_rows rc nag keepA))%nat -> in_bounds (sizes dch) dc -> in_bounds (sizes cch) cc ->
+     evaluates_at_ix m p (next_table_sparse m p n dch cch t) (is_restricted m) (rem_at m p (S t))
+                     (env_of_vals6 t rs rc dst dch cst cch (agent_vals dch cch colsA colsC row dc cc))) ->
+  let vnext := fun idx => VFin (next_table_sparse m p n dch cch t idx) in
+  let sigma := agent_sigma rs dst cst stRs stDst stCst a in
+  sp_row_states m p n dch cch nag trans initial seed prng n_stoch t = sp_states_at m p n dch cch nag trans initial seed prng n_stoch t /\
+  veq (sp_row_value m p n dch cch nag trans initial seed prng n_stoch t a) (value_at m p t false vnext sigma) /\
+  (sp_row_value m p n dch cch nag trans initial seed prng n_stoch t a <> VNegInf ->
+   let '(ci, red, cidx) := sp_row_choice m p n dch cch nag trans initial seed prng n_stoch t a in
+   in_bounds (sizes rc) ci /\ in_bounds (sizes dch) red /\ in_bounds (sizes cch) cidx /\
+   feasible m p (sigma ++ (env_of_idx rc ci ++ env_of_idx dch red ++ env_of_idx cch cidx) ++ [(period_name, Qofnat t)])%list = true /\
+   veq (objective m p false vnext (sigma ++ (env_of_idx rc ci ++ env_of_idx dch red ++ env_of_idx cch cidx) ++ [(period_name, Qofnat t)])%list)
+       (sp_row_value m p n dch cch nag trans initial seed prng n_stoch t a)).
+Proof.
+  intros m p n dch cch rs rc dst cst H1 H2 H3 H4 H5 H6 H7 H8 H9 H10 H11 H12 nag trans initial seed prng n_stoch t a Ht Ha.
+  exact (every_simulated_row_with_filters_is_a_feasible_maximiser m p n dch cch H1 H2 H3 H4 H5 H6 H7 H8 H9 H10 H11 H12
+           nag trans initial seed prng n_stoch t a Ht Ha).
+Qed.
+Print Assumptions C02_every_simulated_row_with_filters_is_a_feasible_maximiser.
+
+Theorem C02_every_simulated_row_with_filters_in_the_last_period_is_a_feasible_maximiser :
+  forall (m : model) (p : params) (n : nat) (dch cch : list (string * grid)),
+  let rs := restricted_states m in let rc := restricted_choices m in
+  let dst := free_discrete_states m in let cst := free_continuous_states m in
+  Permutation (rc ++ dch ++ cch) (choices m) -> NoDup (map fst (choices m)) -> NoDup (map fst (rs ++ rc)) ->
+  (forall x, In x (map fst (dst ++ cst ++ dch ++ cch)) -> is_restricted m x = false) ->
+  NoDup (map fst (rc ++ dst ++ dch ++ cst ++ cch)) -> ~ In "__sparse__"%string (map fst (rc ++ dch ++ cch)) ->
+  NoDup (map fst (rs ++ rc ++ dst ++ cst ++ dch ++ cch) ++ [period_name]) -> (1 <= n)%nat ->
+  forall (nag : nat) (trans : S3 -> list (list nat * list nat * list nat) -> nat -> list key -> S3)
+         (initial : S3) (seed : nat) (prng : nat -> key) (n_stoch : nat) (t a : nat) (vnext : list nat -> val),
+  (t < n)%nat -> (a < nag)%nat -> S t = n ->
+  let '(stRs, stDst, stCst) := sp_states_at m p n dch cch nag trans initial seed prng n_stoch t in
+  let keepA := keep_of m p t rs rc dst cst stRs stDst stCst in
+  let colsA := data_colsA rc nag keepA stRs stDst in
+  let colsC := data_colsC rc nag keepA stCst in
+  length stRs = length rs -> length stDst = length dst -> length stCst = length cst -> (colsA ++ colsC)%list <> [] ->
+  (exists ci, in_bounds (sizes rc) ci /\ keepA a ci = true) ->
+  (forall row dc cc, (row < length (data_rows rc nag keepA))%nat -> in_bounds (sizes dch) dc -> in_bounds (sizes cch) cc ->
+     exists u, eval_fun (depth m) m p (env_of_vals6 t rs rc dst dch cst cch (agent_vals dch cch colsA colsC row dc cc)) "utility" = Some u) ->
+  let sigma := agent_sigma rs dst cst stRs stDst stCst a in
+  sp_row_states m p n dch cch nag trans initial seed prng n_stoch t = sp_states_at m p n dch cch nag trans initial seed prng n_stoch t /\
+  veq (sp_row_value m p n dch cch nag trans initial seed prng n_stoch t a) (value_at m p t true vnext sigma) /\
+  (sp_row_value m p n dch cch nag trans initial seed prng n_stoch t a <> VNegInf ->
+   let '(ci, red, cidx) := sp_row_choice m p n dch cch nag trans initial seed prng n_stoch t a in
+   in_bounds (sizes rc) ci /\ in_bounds (sizes dch) red /\ in_bounds (sizes cch) cidx /\
+   feasible m p (sigma ++ (env_of_idx rc ci ++ env_of_idx dch red ++ env_of_idx cch cidx) ++ [(period_name, Qofnat t)])%list = true /\
+   veq (objective m p true vnext (sigma ++ (env_of_idx rc ci ++ env_of_idx dch red ++ env_of_idx cch cidx) ++ [(period_name, Qofnat t)])%list)
+       (sp_row_value m p n dch cch nag trans initial seed prng n_stoch t a)).
+Proof.
+  intros m p n dch cch rs rc dst cst H1 H2 H3 H5 H9 H10 H11 H12 nag trans initial seed prng n_stoch t a vnext Ht Ha Hl.
+  exact (every_simulated_row_with_filters_in_the_last_period_is_a_feasible_maximiser m p n dch cch H1 H2 H3 H5 H9 H10 H11 H12
+           nag trans initial seed prng n_stoch t a vnext Ht Ha Hl).
+Qed.
+Print Assumptions C02_every_simulated_row_with_filters_in_the_last_period_is_a_feasible_maximiser.
+
+(* non-vacuity: two periods of the health-filter model, two agents; the recorded rows computed *)
+Definition fsp_trans (st : S3) (ch : list (list nat * list nat * list nat)) (t : nat) (ks : list key) : S3 :=
+  let '(stRs, stDst, stCst) := st in
+  let wcol := hd [] stCst in
+  (stRs, stDst,
+   [map (fun wi : Q * (list nat * list nat * list nat) =>
+           fst wi - grid_point (GLin 0 2 5) (hd 0%nat (snd (snd wi))) + (1 # 2) * Qofnat (hd 0%nat (fst (fst (snd wi)))))
+        (combine wcol ch)]).
+Definition fsp_init : S3 := ([[0; 1]], [], [[1 # 3; 3 # 2]]).
+Example C02_simulation_with_filters_nonvacuous :
+  let cch := [("c", GLin 0 2 5)] in
+  map (fun t => (map (fun a => (vred (sp_row_value fsp_model dec_params 2 [] cch 2 fsp_trans fsp_init 0 dec_prng 1 t a),
+                                sp_row_choice fsp_model dec_params 2 [] cch 2 fsp_trans fsp_init 0 dec_prng 1 t a)) [0; 1]%nat,
+                 sp_row_states fsp_model dec_params 2 [] cch 2 fsp_trans fsp_init 0 dec_prng 1 t)) [0; 1]%nat
+  = [([(VFin (111 # 160), ([0%nat], [], [0%nat])); (VFin (79 # 20), ([1%nat], [], [0%nat]))], ([[0; 1]], [], [[1 # 3; 3 # 2]]));
+     ([(VFin 0, ([0%nat], [], [0%nat])); (VFin 4, ([0%nat], [], [4%nat]))], ([[0; 1]], [], [[2 # 6; 8 # 4]]))].
+Proof. vm_compute. reflexivity. Qed.
